@@ -253,7 +253,7 @@ def run(ctx):
     return res
 
 
-def capture_selection(ctx, res, cd, kb):
+def capture_selection(ctx, res, cd, kb, prop='C06', cid='C06.d'):
     repo = ctx.repo
     excm = ctx.excm()
 
@@ -325,6 +325,12 @@ def capture_selection(ctx, res, cd, kb):
             if not good:
                 bad.setdefault('by-position capture must take args[captured_arg.position]',
                                (node, st, 'captured value is %s' % (v.name if v is not None else None,)))
+            # ... and under nothing stronger: a truth test drops position 0, a bounds test silently drops the argument
+            stronger = [f for f in posfact if f[1] is not None] + \
+                [k for k in st.facts if isinstance(k, tuple) and k[0] == 'cmp' and k[1] != 'In' and 'position' in str(k)]
+            if stronger:
+                bad.setdefault('by-position capture is taken under a condition stronger than "position is not None"',
+                               (node, st, 'extra assumptions on the position: %s' % (stronger[:2],)))
             if not (infact and all(x is False for x in infact)) or not (posfact and all(f[0] is False for f in posfact)):
                 bad.setdefault('by-position capture must follow "not passed by keyword" and "position is not None"',
                                (node, st, 'membership %s position %s' % (infact, posfact)))
@@ -333,5 +339,24 @@ def capture_selection(ctx, res, cd, kb):
     cd.instance('list selection: by name iff passed by keyword, else by position if it has one (%d writes)' % len(dom.writes), kb.qualname,
                 not any('capture' in k and 'by-' in k for k in bad) and len(dom.writes) >= 2)
     for k, (node, st, msg) in sorted(bad.items()):
-        res.add(Finding('C06', 'C06.d', 'R-DECISION', kb.file, kb.qualname, node.line, k, 'capture selection deviates from the documented table: %s (%s)' % (k, msg),
+        res.add(Finding(prop, cid, 'R-DECISION', kb.file, kb.qualname, node.line, k, 'capture selection deviates from the documented table: %s (%s)' % (k, msg),
                         witness=dom.path_to(node, st) if (node.id, st.key()) in dom.pred else None))
+
+
+def key_codec_clause(ctx, res, clause, prop, cid):
+    """the key text keeps type information: every encode call of the key builder uses the type-preserving options"""
+    kb = ctx.roles.key_builders['input']
+    enc_calls = [n for f in [kb] + [x for x in kb.nested.values() if not isinstance(x, list)] for n in ast.walk(f.node)
+                 if isinstance(n, ast.Call) and isinstance(n.func, ast.Name) and n.func.id == 'encode']
+    lossy = [n for n in enc_calls if any(not (k.arg == 'unpicklable' and isinstance(k.value, ast.Constant) and k.value.value is True) for k in n.keywords)]
+    clause.instance('%d encode call(s) in the key builder keep type information' % len(enc_calls), kb.qualname, bool(enc_calls) and not lossy)
+    clause.evaluations += len(enc_calls)
+    seen = set()
+    for n in lossy:
+        if norm(n) in seen:
+            continue
+        seen.add(norm(n))
+        res.add(Finding(prop, cid, 'R-TAINT', kb.file, kb.qualname, n.lineno, norm(n)[:120],
+                        'the key text is produced with a lossy codec option (%s): calls whose arguments differ only by type (1 / "1", tuple / list, two '
+                        'classes with equal fields) share one key, so one is answered with the value recorded for the other' % ', '.join(
+                            '%s=%s' % (k.arg, norm(k.value)) for k in n.keywords)))
